@@ -501,7 +501,7 @@ def program_signature(prog):
             return "raw-ctrait:delegate-kind-without-delegate"
         if kind == 7 and prep not in ("default", "default-type", "property"):
             return "raw-ctrait:constant-kind-without-default"
-        if prep == "default-type":
+        if prep in ("default", "default-type") and st[3] in (5, 6, 9):
             return "raw-ctrait:container-default-without-handler"
         return "raw-ctrait:%s:kind%s" % (prep, kind)
     if fam == "name-hash":
